@@ -6,11 +6,13 @@ package couchbase
 // Protocol between a wrapper, its gocbcore callback and asyncOp (C20).
 
 //@ func NewAsyncOp
+//@ params ctx
 //@ props C20
 //@ ensures.buffered[C20] result != nil && typeis(result, "*asyncOp") && fresh(as(result, "*asyncOp")) && as(result, "*asyncOp").ctx == ctx && as(result, "*asyncOp").signal != nil && fresh(as(result, "*asyncOp").signal) && chcap(as(result, "*asyncOp").signal) == 1 && !chclosed(as(result, "*asyncOp").signal) && chsent(as(result, "*asyncOp").signal) == 0 && chrecvd(as(result, "*asyncOp").signal) == 0
 //@ modifies nothing
 
 //@ func (*asyncOp).Resolve
+//@ params m
 //@ props C20
 //@ nonblocking
 //@ requires m != nil && m.signal != nil && chsent(m.signal) - chrecvd(m.signal) < chcap(m.signal) && !chclosed(m.signal)
@@ -18,6 +20,7 @@ package couchbase
 //@ modifies chan(m.signal)
 
 //@ func (*asyncOp).Wait
+//@ params m op err
 //@ props C20
 //@ requires m != nil && m.ctx != nil && m.signal != nil && !chclosed(m.signal) && (err == nil ==> op != nil)
 //@ ensures.early[C20] err != nil ==> result == err && calls(gocbcore.PendingOp.Cancel) == 0 && calls(select.case) == 0
